@@ -372,6 +372,29 @@ Proof.
   apply sum_idx_ext. intros ns _ _. rewrite sum_n_1. unfold entry4. ring.
 Qed.
 
+(* ---------- TT linear layer ---------- *)
+Lemma bidx_al_same ns : forall idx, length idx = length ns -> bidx_al ns ns idx = idx.
+Proof.
+  induction ns as [|n t IH]; intros [|i it] H; simpl in *; try discriminate; auto.
+  rewrite Nat.eqb_refl, IH by lia. reflexivity.
+Qed.
+Theorem forward_affine (W : ttm R) (bias X : dense R) b ms :
+  wf4 W -> length ms = length W -> length b = (length (dshape X) - length W)%nat ->
+  (length W <= length (dshape X))%nat -> dshape bias = shapeM W ->
+  dget (forward W bias X) (b ++ ms) =
+    sum_idx (shapeN W) (fun ns => entry4 W ms ns * dget X (b ++ ns)) + dget bias ms.
+Proof.
+  intros HW Hm Hb Hd Hbias. unfold forward, dmap2. cbn [dget dshape].
+  rewrite dense_matvec_full by auto. f_equal. f_equal.
+  unfold bidx, dense_matvec. cbn [dshape]. rewrite Hbias.
+  set (pre := firstn (length (dshape X) - length W) (dshape X)).
+  assert (Hp : length pre = length b) by (unfold pre; rewrite firstn_length; lia).
+  replace (length (pre ++ shapeM W) - length (shapeM W))%nat with (length pre) by (rewrite app_length; lia).
+  rewrite skipn_app, skipn_all, Nat.sub_diag. cbn [skipn app].
+  rewrite Hp. rewrite skipn_app, skipn_all, Nat.sub_diag. cbn [skipn app].
+  apply bidx_al_same. rewrite shapeM_length. exact Hm.
+Qed.
+
 (* ---------- identity operator ---------- *)
 Theorem eye_full ns : forall is_ js, length is_ = length ns -> length js = length ns ->
   entry4 (eye_ttm ns) is_ js = fold_right (fun ij acc => delta (fst ij) (snd ij) * acc) 1 (combine is_ js).
